@@ -534,3 +534,32 @@ def shutdown_flag_and_io_teardown(ctx):
     okr = isinstance(first, ast.Assign) and src(first.targets[0]) == 'self._running' and isinstance(first.value, ast.Constant) and first.value.value is False
     ctx.check(okr, f'{f.qualname}:_running cleared first', first, 'self._running = False is the first statement',
               f'`{src(first)}` precedes the clearing of _running: the workers go on taking requests while the connection is being torn down', f)
+
+
+@rule('C11.R12', min_instances=3)
+def a_new_connection_starts_clean_and_running(ctx):
+    """connect(): inside the connect lock and on the not-yet-connected side, the request tables of the previous connection are
+    emptied (active_requests.clear(): a key left over from a dropped connection would park every later request with that key
+    for ever; cleanup.clear()), and `_running` is set before the worker threads are started (they leave their loops at once
+    otherwise: every request times out)"""
+    m = ctx.m
+    f = m.method(C, 'connect', inherited=False)
+    ctx.analysed(f)
+    cfg = CFG(f.node, m, f.module)
+    for name in ('active_requests', 'cleanup'):
+        cl = [c for c in calls_in(f.node) if call_attr(c) == 'clear' and src(c.func.value) == f'self.{name}']
+        ctx.check(bool(cl) and all(in_lock(c, '_lock') for c in cl), f'{f.qualname}:{name} emptied for the new connection', f.node, f'self.{name}.clear() inside the connect lock',
+                  f'self.{name} is not emptied when a new connection is made: entries of requests that died with the old connection stay - every later request with '
+                  'the same action and specifier is parked behind them and times out', f)
+    run = [i for t, v, s in attr_stores(f.node) if t.attr == '_running' and isinstance(v, ast.Constant) and v.value is True for i in cfg.node_of(s)]
+    threads = [i for c in calls_in(f.node) if call_name(c) == 'mkthread' and c.args and ('rxthread' in src(c.args[0]) or 'txthread' in src(c.args[0])) for i in cfg.node_of(c)]
+    ctx.check(bool(run) and bool(threads) and all(cfg.dominates(run, i) for i in threads), f'{f.qualname}:_running set before the workers start', f.node,
+              'self._running = True dominates both mkthread calls', 'the worker threads are started while _running is still false: they end at once, no request is ever answered', f)
+    for t in cfg.nodes:
+        if t.kind == 'test' and _tp(t.ast)[0] == 'self.io':
+            side, label = _side(cfg, t, True)
+            rets = {i for n_ in body_walk(f.node) if isinstance(n_, ast.Return) for i in cfg.ids(n_)}
+            mk = set(threads)
+            other, _ = _side(cfg, t, False)
+            ctx.check(bool(rets & side) and mk <= other and not (mk & side - other), f'{f.qualname}:an existing connection is kept', t.ast, 'return on the connected side',
+                      f'`{src(t.ast)}`: connect() returns without connecting when there is NO connection and tears into a live one otherwise', f)
